@@ -763,11 +763,34 @@ func (it *Interp) convert(v Value, from, to types.Type) Value {
 		// to string
 		if fok && fb.Info()&types.IsInteger != 0 {
 			// string(rune)
-			r := it.concInt(v, from)
-			if r < 0 || r > 0x10FFFF {
-				r = 0xFFFD
+			if v.Ref == nil {
+				r := it.concInt(v, from)
+				if r < 0 || r > 0x10FFFF {
+					r = 0xFFFD
+				}
+				return mkStr(string(rune(r)))
 			}
-			return mkStr(string(rune(r)))
+			// symbolic: encode with the real unicode/utf8 code
+			fs, fsigned := scalarSort(from)
+			t := v.Ref.(*Term)
+			var t64 *Term
+			if fsigned {
+				t64 = tt.Sext(t, 64)
+			} else {
+				t64 = tt.Zext(t, 64)
+			}
+			_ = fs
+			if !it.pr.Decide(tt.Cmp(OUle, t64, tt.Const(64, 0x10FFFF))) {
+				return mkStr("\uFFFD")
+			}
+			fn := it.eng.pkgs["unicode/utf8"].Func("AppendRune")
+			res := it.callFunction(fn, []Value{{}, fromTerm(tt.Extract(t64, 31, 0))}, nil, nil)
+			sl, _ := res.Ref.(Slice)
+			bs := make([]Value, sl.n)
+			for i := range bs {
+				bs[i] = sl.c[i].v
+			}
+			return mkStrBytes(bs)
 		}
 		if fok && fb.Info()&types.IsString != 0 {
 			return v
